@@ -714,8 +714,17 @@ func (x *Exec) invoke(st *State, recv *Val, com *ssa.CallCommon, args []*Val, po
 	key := typeKey(it) + "." + com.Method.Name()
 	con := x.w.ifaceContracts[key]
 	if con == nil {
-		// try by method name over any interface declaring an identical method
-		con = x.w.ifaceContracts["*."+com.Method.Name()]
+		// the method may be declared in an interface embedded in (or implied by) the static
+		// type: any contract for a method of that name on an interface the static type implements
+		for k, c := range x.w.ifaceContracts {
+			if !strings.HasSuffix(k, "."+com.Method.Name()) {
+				continue
+			}
+			if ci, ok := c.Fn.Signature.Recv().Type().Underlying().(*types.Interface); ok && types.Implements(it, ci) {
+				con = c
+				break
+			}
+		}
 	}
 	if con == nil {
 		return nil, fmt.Errorf("UNSUPPORTED interface method call %s (no interface contract)", key)
@@ -768,6 +777,29 @@ func init() {
 		m := x.heap(st, name, 2, 8)
 		eq := tb.Eq(m.Select(x, []*Term{r.C[0], tb.Add(r.C[1], sk)}), m.Select(x, []*Term{b.C[0], tb.Add(b.C[1], sk)}))
 		return []*Val{x.boolVal(tb.Implies(tb.And(tb.Cmp("bvsle", tb.BV(64, 0), sk), tb.Cmp("bvslt", sk, n)), eq))}, nil
+	}
+	// abstract message content: uninterpreted functions of the message identity
+	intrinsics["gocv_msgSize"] = func(x *Exec, st *State, fn *ssa.Function, args []*Val, pos token.Pos) ([]*Val, error) {
+		m := args[0]
+		return []*Val{x.intVal(x.tb.App("msgSize", 64, m.C[0], m.C[1]))}, nil
+	}
+	intrinsics["gocv_msgByte"] = func(x *Exec, st *State, fn *ssa.Function, args []*Val, pos token.Pos) ([]*Val, error) {
+		m, i := args[0], args[1].C[0]
+		return []*Val{{T: types.Typ[types.Uint8], C: []*Term{x.tb.App("msgByte", 8, m.C[0], m.C[1], i)}}}, nil
+	}
+	// ghost record attached to a message identity (fields live in ordinary field heaps)
+	intrinsics["gocv_ghostOf"] = func(x *Exec, st *State, fn *ssa.Function, args []*Val, pos token.Pos) ([]*Val, error) {
+		m := args[0]
+		rt := fn.Signature.Results().At(0).Type()
+		et := rt.Underlying().(*types.Pointer).Elem()
+		key := x.tb.Bin("bvxor", m.C[1], x.tb.ZExt(64, m.C[0]))
+		return []*Val{{T: rt, C: []*Term{x.tb.BV(64, 1)}, A: &Addr{prefix: "X:" + typeKey(et), keys: []*Term{key}}}}, nil
+	}
+	intrinsics["gocv_sliceRef"] = func(x *Exec, st *State, fn *ssa.Function, args []*Val, pos token.Pos) ([]*Val, error) {
+		return []*Val{x.intVal(args[0].C[0])}, nil
+	}
+	intrinsics["gocv_sliceOff"] = func(x *Exec, st *State, fn *ssa.Function, args []*Val, pos token.Pos) ([]*Val, error) {
+		return []*Val{x.intVal(args[0].C[1])}, nil
 	}
 	intrinsics["gocv_strview"] = func(x *Exec, st *State, fn *ssa.Function, args []*Val, pos token.Pos) ([]*Val, error) {
 		tb := x.tb
